@@ -385,10 +385,23 @@ def check_omitted_is_default(facts, out, sec, dec_ty, key_enum, writer, dtab):
             if y.get('k') == 'path' and y.get('def', '').startswith(key_enum + '::'):
                 keys.append(y['name'])
         H.walk(x['t'], vk)
+        pol = True
+        if not keys:
+            # guard form: `if COND { return Ok(()) }` and then the write -- the keys of the rest of the block, written
+            # when COND does not hold
+            t_ = H.peel(x['t'])
+            only_ret = isinstance(t_, dict) and (t_.get('k') == 'ret' or (t_.get('k') == 'block' and len(t_.get('stmts', [])) + (1 if t_.get('expr') else 0) == 1
+                                                                         and H.peel((t_.get('stmts') or [t_.get('expr')])[0]).get('k') == 'ret'))
+            blk = path[-1][0] if path and path[-1][1] == 'stmts' else None
+            if only_ret and isinstance(blk, dict) and blk.get('k') == 'block':
+                idx = [i for i, st_ in enumerate(blk.get('stmts', [])) if st_ is x]
+                if idx:
+                    for rest in blk['stmts'][idx[0] + 1:] + ([blk['expr']] if blk.get('expr') else []):
+                        H.walk(rest if isinstance(rest, dict) else {}, vk)
+                    pol = False
         if not keys:
             return
         c = H.peel(x['c'])
-        pol = True
         while isinstance(c, dict) and c.get('k') == 'unary' and c.get('op') == 'Not':
             c = H.peel(c['e'])
             pol = not pol
